@@ -23,6 +23,14 @@ What the translation means (the conventions the printer applies, all visible in 
   (`<fn>_fold<k>`), mutual with the function when the closure calls it;
 * `match self { Enum::Variant {..} => .. }` becomes a match over the model's inductive type, through the
   variant table below (Rust field name -> position in the Lean constructor).
+
+Substitutions that are NOT translations (stated here because the generated text shows only their result):
+`externs` replaces named external calls by model parameters (the elapsed time of
+`TerminationModel::terminate_search` — `Instant::now().duration_since(..)` and the hook's `verif_clock::elapsed` —
+becomes the model's virtual clock `baseNs + perNs * iteration`), `drop` removes parameters the model does not have
+(`start_time`), `+field` adds model-only constructor fields.  Float division is the field's (`x / 0 = 0`, no
+`inf` / NaN) and comparisons are the order's (no NaN): a `gen_*_eq` theorem speaks for the code only where the
+divisor is non-zero and the operands are numbers; unsigned counters are `Nat` (no wrap).
 """
 import os
 import re
